@@ -8,8 +8,8 @@ from ..core import Part, Result
 ID = "C06"
 RULE = (
     "table: EXHAUSTIVE decision table group {ASP GLU HIS CYS TYR LYS ARG} x position {N-terminal, "
-    "internal, C-terminal} x 6 force fields x pH side {below, above, equal to pKa} x 2 contexts "
-    "(756 cells), the pKa source (main.run_propka) replaced by a harness function returning rows in "
+    "internal, C-terminal} x 6 force fields x pH side {below, above, equal to pKa} x 3 contexts "
+    "(1134 cells; contexts numbered from 1, 998 and 2500), the pKa source (main.run_propka) replaced by a harness function returning rows in "
     "PROPKA's row format.  random: generated chains (2-6 residues, 55 % titratable), random pKa in "
     "[0,14] (2 decimals) for 90 % of the groups, pH sweep of 3-4 increasing values incl. one equal "
     "to a pKa.  termini: N+/C- keys fed to Biomolecule.apply_pka_values directly and (known finding) "
@@ -50,10 +50,11 @@ def install_fake_propka():
             base = dict(res_num=res.res_seq, ins_code=" ", res_name=res.name, chain_id=res.chain_id,
                         group_type=None, model_pKa=0.0, buried=0.0, coupled_group=None)  # fmt: skip
             if res.name in TIT and key in PKA:
-                rows.append(dict(base, group_label=f"{res.name} {res.res_seq:>3} {res.chain_id}", pKa=PKA[key]))
+                # PROPKA's own fixed-width label: "{residue_type:<3s}{res_num:>4d}{chain_id:>2s}"
+                rows.append(dict(base, group_label=f"{res.name:<3s}{res.res_seq:>4d}{res.chain_id:>2s}", pKa=PKA[key]))
             for tag in ("N+", "C-"):
                 if (tag,) + key in TERM_ROWS:
-                    rows.append(dict(base, group_label=f"{tag}  {res.res_seq:>3} {res.chain_id}", pKa=TERM_ROWS[(tag,) + key]))
+                    rows.append(dict(base, group_label=f"{tag:<3s}{res.res_seq:>4d}{res.chain_id:>2s}", pKa=TERM_ROWS[(tag,) + key]))
         return rows, ""
 
     M.run_propka = fake_propka
@@ -76,7 +77,7 @@ def _context(i, group, pos):
     else:
         seq = fillers[:2] + [group] + fillers[2:]
     n = len(seq)
-    return dict(id="A", start=1, seq=seq, phi=[-70.0 - 7 * i] * n, psi=[140.0, 150.0 - 5 * i, 135.0, 145.0][:n],
+    return dict(id="A", start=[1, 998, 2500][i % 3], seq=seq, phi=[-70.0 - 7 * i] * n, psi=[140.0, 150.0 - 5 * i, 135.0, 145.0][:n],
                 chi=[[-60.0 + 5 * i, 180.0, 60.0, 180.0, -60.0]] * n, hyd="none", oxt=True, q=[1, 0.1 * i, 0.2, 0.3], ter=True)
 
 
@@ -86,7 +87,7 @@ def table_cases():
         for pos in ("N", "M", "C"):
             for ff in ffmodel.FFS:
                 for side in ("below", "above", "equal"):
-                    for ctx in (0, 1):
+                    for ctx in (0, 1, 2):
                         out.append(dict(part="table", group=group, pos=pos, ff=ff, side=side, ctx=ctx))
     return out
 
@@ -154,8 +155,8 @@ def check_table(case):
     ch = _context(case["ctx"], group, pos)
     desc = dict(chains=[ch], waters=[])
     idx = ch["seq"].index(group) if pos != "C" else len(ch["seq"]) - 1
-    key = ("A", 1 + idx)
-    pka = {key: 6.25 + case["ctx"]}
+    key = ("A", ch["start"] + idx)
+    pka = {key: 6.25 + 0.5 * case["ctx"]}
     ph = {"below": pka[key] - 1.5, "above": pka[key] + 1.5, "equal": pka[key]}[side]
     s0, r0 = e2e.run_case(desc, ff, ["--keep-chain"])
     res.label(f"ff={ff}", f"group={group}", f"pos={pos}", f"side={side}")
@@ -177,7 +178,8 @@ def check_table(case):
 def random_case(draw):
     n = draw(st.integers(2, 6))
     seq = [draw(st.sampled_from(TIT)) if draw(st.integers(0, 99)) < 55 else draw(strat.resname(0)) for _ in range(n)]
-    ch = draw(strat.chain(cid="A", nmin=n, nmax=n, variants=0, hyd="none", oxt=True, start=1))
+    ch = draw(strat.chain(cid="A", nmin=n, nmax=n, variants=0, hyd="none", oxt=True,
+                          start=draw(st.sampled_from([1, 1, 27, 997, 2500]))))  # fmt: skip
     ch["seq"] = seq
     ch["ter"] = True
     pka = [[i, draw(st.integers(0, 1400)) / 100.0] for i, nm in enumerate(seq) if nm in TIT and draw(st.integers(0, 9)) < 9]
@@ -191,9 +193,9 @@ def check_random(case):
     res = Result()
     ch, ff = case["chain"], case["ff"]
     desc = dict(chains=[ch], waters=[])
-    pka = {("A", 1 + i): v for i, v in case["pka"]}
+    pka = {("A", ch["start"] + i): v for i, v in case["pka"]}
     s0, r0 = e2e.run_case(desc, ff, ["--keep-chain"])
-    res.label(f"ff={ff}", f"groups={min(len(pka), 3)}")
+    res.label(f"ff={ff}", f"groups={min(len(pka), 3)}", "resnum>=1000" if ch["start"] + len(ch["seq"]) > 1000 else "resnum<1000")
     if not r0.ok:
         res.label("base-run-failed")
         return res
